@@ -468,11 +468,17 @@ def gen_fit(rng, idx, kind="single", real=None, allow_arith=False, plain=False):
         "tag": tag, "prefix": prefix,
         "search": {"cls": real or "Scripted", "script_id": idx, "flavour": rng.choice(["a", "b"])},
         "model": model, "info": info,
-        "layout": rng.choice(["zip", "folder", "both"]),
+        "layout": rng.choice(["zip", "folder", "both", "both", "zip+partial", "zip+stale"]) if (kind == "single" and real is None)
+                  else rng.choice(["zip", "folder", "both"]),
         "n_analyses": rng.choice([1, 1, 1, 2, 3]) if (kind == "single" and real is None) else 1,
         "scripts": [gen_script(rng, interrupt)],
         "nfree": nfree, "arith": arith,
     }
+    if f["layout"] == "zip+partial":
+        # what a kill during the removal of the folder (after zipping) or during restore() can leave behind
+        cand = ["metadata", ".completed", ".identifier", "files/model.json", "files/search.json", "files/samples.csv",
+                "files/samples_info.json", "files/samples_summary.json", "files/info.json", "files", "model.info"]
+        f["delete"] = sorted(rng.sample(cand, rng.randint(1, 5)))
     if kind == "single" and real is None:
         f["latent"] = rng.random() < 0.25
         f["hdu"] = rng.random() < 0.25
@@ -583,6 +589,22 @@ def gen_cases(ctx, classes):
         fits = [gen_fit(rng, 0, plain=True), gen_prefit_fit(rng, 1, st, resume=True)]
         fits[0]["scripts"][0]["interrupt"] = None
         scen.append({"kind": "scenario", "flavour": "dir", "fits": fits, "completed_only": False})
+    # (1g) a complete archive beside a partial / stale / identical / absent folder (and a folder without archive)
+    for variant in range(2 if not thorough else 6):
+        fits = []
+        for i, (lay, dele) in enumerate([("zip+partial", ["files/model.json", ".completed"] if variant % 2 == 0 else ["metadata", "files/samples.csv"]),
+                                         ("zip+stale", None), ("both", None), ("zip", None), ("folder", None), ("zip+partial", None)]):
+            f = gen_fit(rng, i, plain=True)
+            f["scripts"][0]["interrupt"] = None
+            f["layout"] = lay
+            if lay == "zip+partial":
+                cand = ["metadata", ".completed", ".identifier", "files/model.json", "files/search.json", "files/samples.csv",
+                        "files/samples_info.json", "files/info.json", "files"]
+                f["delete"] = dele or sorted(rng.sample(cand, rng.randint(1, 4)))
+            fits.append(f)
+        rng.shuffle(fits)
+        scen.append({"kind": "scenario", "flavour": "fits", "fits": fits[: (4 if variant % 2 == 0 else 6)], "completed_only": variant % 3 == 2,
+                     "shape": "archive-beside-folder"})
     # (1e) info values that are not strings (recorded findings: type loss; containers abort the load)
     import copy as _copy
     for info in ([{"n": 3, "x": 0.5, "flag": True, "none": None, "s": "t"}, {"d": {"a": 1}, "l": [1, 2], "k": "v"}]
@@ -661,6 +683,9 @@ def gen_cases(ctx, classes):
             if singles:
                 sc["copies"] = [{"fit": rng.choice(singles), "to": "copy"}]
         scen.append(sc)
+    for sc_ in scen:
+        if not sc_.get("two_dirs"):
+            sc_["disk_view"] = True
     return cases + scen
 
 
@@ -1022,6 +1047,25 @@ def coq_case(c, r):
             best.append(cpair(cstr(f["id"]), c_ostr(bf if isinstance(bf, str) and not bf.startswith("exc:") else None)))
     return "CDir %s %s %s %s %s" % (cbool(c.get("completed_only", False)), clist([c_folder(x) for x in folders]),
                                     c_observed(r["scrape"]), clist(best), c_paths(unfaithful)), None
+
+
+def coq_disk_case(c, r):
+    """CDisk term: archives and folders as they lay on disk before the load, each read on its own"""
+    if c["kind"] != "scenario" or "directory_raw" not in r:
+        return None
+    raw = {e["rel"]: e for e in r["directory_raw"]}
+    arch = {e["rel"]: e for e in r["directory_archives"]}
+    vis = {e["rel"]: e for e in r["directory"]}
+    order = [p for p in r["scrape"]["walk_order"] if p in vis] + [p for p in vis if p not in r["scrape"]["walk_order"]]
+    ds = []
+    for p in order:
+        a, f = arch.get(p), raw.get(p)
+        ds.append("{| d_archive := %s; d_folder := %s |}" % (copt(a, lambda e: c_folder(folder_of(e))), copt(f, lambda e: c_folder(folder_of(e)))))
+    for p in list(arch) + list(raw):
+        if p not in vis:
+            return None   # (a folder without identifier, metadata or marker: invisible to the inspection of the extracted tree too)
+    found = [c_folder(folder_of(vis[p])) for p in order]
+    return "CDisk %s %s %s %s" % (cbool(c.get("completed_only", False)), clist(ds), clist(found), c_observed(r["scrape"]))
 
 
 def unique_best(gs, fits):
@@ -1390,6 +1434,9 @@ def run(ctx):
                 ctx.hist("fit_type", f["type"])
                 ctx.hist("search", f["search"]["cls"])
                 ctx.hist("layout", f["layout"])
+                if f.get("delete"):
+                    for x in f["delete"]:
+                        ctx.hist("partial_folder_lacks", x)
                 ctx.hist("interrupt", f["scripts"][0].get("interrupt"))
                 ctx.hist("n_analyses", f.get("n_analyses", 1))
                 ctx.hist("tag", "none" if f.get("tag") is None else "set")
@@ -1418,6 +1465,15 @@ def run(ctx):
             coq_idx.append((i, bool(msgs)))
         else:
             ctx.hist("no_correspondence_term", why)
+        try:
+            dc = coq_disk_case(c, ro)
+        except Exception as e:  # noqa
+            dc = None
+            ctx.obligation("abstraction-disk:%d" % i, "harness", False, "%s: %s" % (type(e).__name__, e))
+        if dc:
+            coq_cases.append(dc)
+            coq_idx.append((i, bool(msgs)))
+            ctx.hist("disk_view_terms", "CDisk")
         if i % 9 == 0:
             ctx.sample({"case": c if c["kind"] == "settings" else {"kind": "scenario", "flavour": c["flavour"],
                                                                       "fits": [{k: f[k] for k in ("type", "name", "tag", "prefix", "search", "layout", "n_analyses")} for f in c["fits"]]}},
